@@ -1,4 +1,4 @@
-\* generation: every transition of a small model printed once (workers=1)
+\* generation (quick tier): every transition of the 2-account model printed once as JSON; 3 transactions, 5 heights
 SPECIFICATION Spec
 CONSTANTS
   Accts <- A2
